@@ -97,11 +97,12 @@ CreateMustFail(kind, flags) == KindMustReject(kind) \/ flags # 0
 CreateMustSucceed(kind, flags) == KindMustAccept(kind) /\ flags = 0
 CreateRel(kind, flags, ok) == (CreateMustFail(kind, flags) => ~ok) /\ (CreateMustSucceed(kind, flags) => ok)
 
-\* add_values(handle h, objs with NULLOBJ for NULL pointers, ...): "nbobjs must be at least 2", "flags must be 0",
-\* a handle takes values once.  NULL objects are not objects: fewer than two real objects must be rejected;
-\* with two or more real objects besides NULLs the call may fail or keep exactly the real ones.
-ValuesMustFail(h, objs, flags) == flags # 0 \/ h.st # "created" \/ Len(NonNullPos(objs)) < 2
-ValuesMustSucceed(h, objs, flags) == ~ValuesMustFail(h, objs, flags) /\ Len(NonNullPos(objs)) = Len(objs)
+\* add_values(handle h, objs with NULLOBJ for NULL pointers, ...): "nbobjs must be at least 2", "flags must be 0".
+\* NULL objects are not objects: fewer than two real objects must be rejected; with two or more real objects
+\* besides NULLs the call may fail or keep exactly the real ones.  Giving values to a handle that already has
+\* some is not described: it may fail (the handle is destroyed) or replace them.
+ValuesMustFail(h, objs, flags) == flags # 0 \/ h.st = "none" \/ Len(NonNullPos(objs)) < 2
+ValuesMustSucceed(h, objs, flags) == ~ValuesMustFail(h, objs, flags) /\ h.st = "created" /\ Len(NonNullPos(objs)) = Len(objs)
 ValuesRel(h, objs, flags, ret) ==
   /\ ret \in {0, -1}
   /\ ValuesMustFail(h, objs, flags) => ret = -1
@@ -202,13 +203,12 @@ LinksRel(in, ret, out) ==
 
 \* MERGE_SWITCH_PORTS: every object that is not a switch port is kept with the values between them;
 \* all ports are replaced by one (the first); without any port the call fails.
-IdxOf(objs, g) == CHOOSE i \in DOMAIN objs : objs[i] = g
 MergeBody(in, ret, out) ==
   LET n == N(in)
       ports == {i \in 1..n : in.objs[i] # NULLOBJ /\ in.sw[i]}
       others == {i \in 1..n : in.objs[i] # NULLOBJ /\ ~in.sw[i]}
       m == N(out)
-  IN IF ports = {} THEN ret = -1
+  IN IF ports = {} THEN ret = -1 \/ RemoveNullRel(in, ret, "EINVAL", out)      \* nothing to merge: an error, or only the NULLs go
      ELSE IF Cardinality(others) + 1 < 2 THEN ret = -1
      ELSE /\ ret = 0
           /\ m = Cardinality(others) + 1
